@@ -79,6 +79,14 @@ def denoteMatch (optional : Bool) (pats : List PathPat) (T : Table) : Table :=
     let m := matches_ A env r pats
     if optional && m.isEmpty then [padNulls r (patVars pats)] else m
 
+/-- OPTIONAL MATCH … WHERE p: the WHERE belongs to the optional pattern.  Per incoming row: the matches that
+    pass `p`; when there is none — no match at all, or `p` false / null on every match — the row is kept once with
+    the pattern variables null.  An OPTIONAL MATCH never removes an incoming row, whatever `p` reads. -/
+def denoteOptionalWhere (pats : List PathPat) (p : Expr) (T : Table) : Table :=
+  T.flatMap fun r =>
+    let m := (matches_ A env r pats).filter (evalBool A env · p)
+    if m.isEmpty then [padNulls r (patVars pats)] else m
+
 /-! ### UNWIND, projection -/
 
 def denoteUnwind (e : Expr) (x : String) (T : Table) : Table :=
@@ -191,6 +199,7 @@ def Result.rows : Result → Table
 
 def denoteClauses : Query → Table → Except Err Result
   | [], T => .ok (.bag T)
+  | .match_ true pats :: .where_ e :: q, T => denoteClauses q (denoteOptionalWhere A env pats e T)
   | .match_ opt pats :: q, T => denoteClauses q (denoteMatch A env opt pats T)
   | .where_ e :: q, T => denoteClauses q (T.filter (evalBool A env · e))
   | .unwind e x :: q, T => denoteClauses q (denoteUnwind A env e x T)
